@@ -487,6 +487,8 @@ structure Cfg where
   m : Str
   ct : Str
   tmpl : Str
+  nest : Bool := false     -- `nest=1`: an interceptor that, before every outer request goes out, makes a JSON POST of its own
+                           -- (a different body) through the same SimpleAPI — the outer request's body must stay its own
 
 def kv (toks : List String) (key : String) : String :=
   match toks.find? (·.startsWith (key ++ "=")) with
@@ -496,7 +498,14 @@ def kv (toks : List String) (key : String) : String :=
 def parseCfg (head : String) : Cfg :=
   let toks := head.splitOn " "
   { base := unhex (kv toks "base").toList, hdr := parseHeader (kv toks "hdr"), ctor := kv toks "ctor",
-    m := unhex (kv toks "m").toList, ct := unhex (kv toks "ct").toList, tmpl := unhex (kv toks "tmpl").toList }
+    m := unhex (kv toks "m").toList, ct := unhex (kv toks "ct").toList, tmpl := unhex (kv toks "tmpl").toList,
+    nest := kv toks "nest" = "1" }
+
+/-- the nested request of the `nest=1` interceptor as the transport sees it: `APIMakeDoNewRequestWithBodySerializer(api, POST,
+    "nested", application/json, JSONBodySerializer)` with body `{A:"n", N:9}` — DefaultHeader's content plus the content type -/
+def nestedRecord (c : Cfg) : SentReq :=
+  ⟨"POST".toList, c.base ++ "/nested".toList, 0, hAdd (c.hdr.getD []) "Content-Type".toList "application/json".toList,
+   bodyRecord (.json "n".toList 9)⟩
 
 /-- the `ApiDef` the configured constructor produces -/
 def Cfg.apiDef (c : Cfg) : Option ApiDef :=
@@ -547,7 +556,10 @@ def runOp (fl : Flags) (c : Cfg) (st : St) (op : String) : St × Str :=
       match o with
       | .panic => ({ st with w := w' }, "panic".toList)
       | _ =>
-        let news := w'.log.drop st.w.log.length
+        -- with `nest=1` the interceptor's own request reaches the transport just before every outer one
+        let news0 := w'.log.drop st.w.log.length
+        let news := if c.nest then news0.flatMap (fun r => [nestedRecord c, r]) else news0
+        let w' := { w' with log := st.w.log ++ news }
         ({ st with w := w' }, "n=".toList ++ (toString news.length).toList ++ ' ' ::
           (news.flatMap fun r => showSent r ++ [' ']) ++ showOutcome o)
   | ["mut"] =>
@@ -653,10 +665,13 @@ def specOp (c : Cfg) (st : SpecSt) (op : String) : SpecSt × List Str :=
         let outs := (specURLs c ps).flatMap fun u =>
           match urlParse u with
           | none => ["n=0 err=url tgt=nil".toList]
-          | some u' => tails.map fun tail => "n=1 ".toList ++ showSent ⟨m, u', 0, hdr, bodyRec⟩ ++ ' ' :: tail
-        let sentNow := if (specURLs c ps).all (fun u => (urlParse u).isSome) then 1 else 0
+          | some u' => tails.map fun tail =>
+            (if c.nest then "n=2 ".toList ++ showSent (nestedRecord c) ++ [' '] else "n=1 ".toList) ++
+              showSent ⟨m, u', 0, hdr, bodyRec⟩ ++ ' ' :: tail
+        let sentOne := if (specURLs c ps).all (fun u => (urlParse u).isSome) then 1 else 0
+        let sentNow := if c.nest then 2 * sentOne else sentOne
         let cur' := match parseResp r with
-          | .ok t => if sentNow = 1 ∧ streamFails.isNone ∧ f ≠ .tx ∧ f ≠ .read ∧ f ≠ .dec ∧ f ≠ .dect then t else cur
+          | .ok t => if sentOne = 1 ∧ streamFails.isNone ∧ f ≠ .tx ∧ f ≠ .read ∧ f ≠ .dec ∧ f ≠ .dect then t else cur
           | _ => cur
         ({ st with sent := st.sent + sentNow, calls := st.calls.set i (ps, body, cur') }, outs)
   | ["mut"] => (st, [if st.sent = 0 then "nomut".toList else "nil".toList])
